@@ -48,6 +48,7 @@ ASSUMPTIONS = ["JSON numbers are integers or x.5 (printed alike by JavaScript an
 
 def run(ctx):
     ctx.known_findings = lambda: _ops.merged_known(ctx, ID)
+    _ops.install_case_replays(ctx)
     return core.standard_run(ctx)
 
 
@@ -61,7 +62,7 @@ def classify(req, impl):
         return k
     if req.startswith("c10\t"):
         f = req.split("\t")
-        out = ["shape=" + (f[3] if len(f) > 3 else "?")]
+        out = ["shape=" + (f[4] if len(f) > 4 else "?")]
         if "out:ok" in impl:
             out.append("read=ok")
         elif "out:missing" in impl:
